@@ -125,12 +125,34 @@ type Call struct {
 type Recorder struct {
 	mu    sync.Mutex
 	calls []Call
+	tee   []Call
+	teeOn bool
 }
 
 func (r *Recorder) add(c Call) {
 	r.mu.Lock()
 	r.calls = append(r.calls, c)
+	if r.teeOn {
+		r.tee = append(r.tee, c)
+	}
 	r.mu.Unlock()
+}
+
+// Tee makes the recorder keep a second copy of the calls (the session renders and clears the
+// first one inside every operation; the oracles read the copy).
+func (r *Recorder) Tee(on bool) {
+	r.mu.Lock()
+	r.teeOn, r.tee = on, nil
+	r.mu.Unlock()
+}
+
+// TakeTee returns the copy and stops copying.
+func (r *Recorder) TakeTee() []Call {
+	r.mu.Lock()
+	defer r.mu.Unlock()
+	c := r.tee
+	r.tee, r.teeOn = nil, false
+	return c
 }
 
 // Take returns and clears the calls recorded so far.
